@@ -83,6 +83,8 @@ message Req {
   bytes bin = 4;
   int32 code = 5;
   repeated int32 nums = 6;
+  map<int64, string> mi = 7;
+  int64 big = 8;
 }
 message Small {
   string msg = 1;
@@ -105,6 +107,7 @@ var opNames = []string{
 	"t2j.Do(cut-end)",
 	"j2p.Do(bad)",
 	"p2j.Do(cut)",
+	"p2j.Do(int64str,cut-in-int64-key)",
 	"j2t.HTTPConv.Do(fallback,missing-required)",
 	"j2t.HTTPConv.Do(traceback,missing-required)",
 	"thrift.MarshalTo(Small,missing-required)",
@@ -123,6 +126,7 @@ var opNames = []string{
 	"t2j.HTTPConv.Do(NoCopyString,header)",
 	"j2p.Do(nested)",
 	"p2j.Do(nested)",
+	"p2j.Do(int64str,nested)",
 	"thrift.GetByPath+Interface",
 	"thrift.Load+Marshal(pooled)",
 	"thrift.MarshalTo(Small)",
@@ -157,6 +161,9 @@ type fixture struct {
 	t2jc     t2j.BinaryConv
 	j2pc     j2p.BinaryConv
 	p2jc     p2j.BinaryConv
+	p2jc64   p2j.BinaryConv  // Int642String: shared like the others
+	hcReq    *j2t.HTTPConv   // ONE HTTP converter per direction shared by every op (each call brings its own options)
+	hcResp   *t2j.HTTPConv
 	descDump string
 }
 
@@ -204,7 +211,31 @@ func protoReq(nItems int) []byte {
 	b = protowire.AppendVarint(b, 7)
 	b = protowire.AppendTag(b, 6, protowire.BytesType)
 	b = protowire.AppendBytes(b, []byte{1, 2, 0x96, 0x01})
+	b = protowire.AppendTag(b, 8, protowire.VarintType)
+	b = protowire.AppendVarint(b, 1234567890123)
+	for _, k := range []uint64{7, 1 << 40} {
+		var e []byte
+		e = protowire.AppendTag(e, 1, protowire.VarintType)
+		e = protowire.AppendVarint(e, k)
+		e = protowire.AppendTag(e, 2, protowire.BytesType)
+		e = protowire.AppendString(e, "seven")
+		b = protowire.AppendTag(b, 7, protowire.BytesType)
+		b = protowire.AppendBytes(b, e)
+	}
 	return b
+}
+
+// protoBadInt64Key: the message with one more entry of map<int64,string> whose lengths are consistent but whose
+// key is an overflowing varint (eleven bytes): the error is raised exactly while the key is read.
+func protoCutInInt64Key(full []byte) []byte {
+	var e []byte
+	e = protowire.AppendTag(e, 1, protowire.VarintType)
+	e = append(e, 0xff, 0xff, 0xff, 0xff, 0xff, 0xff, 0xff, 0xff, 0xff, 0xff, 0x01)
+	e = protowire.AppendTag(e, 2, protowire.BytesType)
+	e = protowire.AppendString(e, "x")
+	b := append([]byte{}, full...)
+	b = protowire.AppendTag(b, 7, protowire.BytesType)
+	return protowire.AppendBytes(b, e)
 }
 
 type respSetter struct {
@@ -284,6 +315,7 @@ func newFixture() (*fixture, error) {
 	wrapped, _ := thrift.WrapBinaryBody(tbin.Bytes(resp), "M", thrift.REPLY, 0, 1)
 	in["thrift-resp-msg"] = wrapped
 	in["pb-nested"] = protoReq(2)
+	in["pb-cut-int64-key"] = protoCutInInt64Key(in["pb-nested"])
 	in["pb-cut"] = in["pb-nested"][:len(in["pb-nested"])/2] // NOTE: not cut inside the packed list (p2j loops forever there: C06 finding)
 	in["pbjson-nested"] = []byte(`{"msg":"pb","items":[{"a":1,"b":"x"},{"a":2,"b":"y"}],"m":{"k1":5},"bin":"AAH/","code":7,"nums":[1,2,150]}`)
 	in["json-no-code"] = []byte(`{"msg":"he","items":[{"a":1,"b":"x"}],"m":{"k1":1}}`)
@@ -308,6 +340,9 @@ func newFixture() (*fixture, error) {
 	f.t2jc = t2j.NewBinaryConv(conv.Options{})
 	f.j2pc = j2p.NewBinaryConv(conv.Options{})
 	f.p2jc = p2j.NewBinaryConv(conv.Options{})
+	f.p2jc64 = p2j.NewBinaryConv(conv.Options{Int642String: true})
+	f.hcReq = j2t.NewHTTPConv(meta.EncodingThriftBinary, f.fnM)
+	f.hcResp = t2j.NewHTTPConv(meta.EncodingThriftBinary, f.fnM)
 
 	add := func(name string, run func() ([]byte, error)) { f.ops = append(f.ops, op{name, run}) }
 	// failing variants first (simplest-first for histories: "failing calls precede successful ones")
@@ -328,6 +363,7 @@ func newFixture() (*fixture, error) {
 	add("t2j.Do(cut-end)", func() ([]byte, error) { return f.t2jc.Do(ctx, f.reqT, in["thrift-cut-end"]) })
 	add("j2p.Do(bad)", func() ([]byte, error) { return f.j2pc.Do(ctx, f.preqT, in["pbjson-bad"]) })
 	add("p2j.Do(cut)", func() ([]byte, error) { return f.p2jc.Do(ctx, f.preqT, in["pb-cut"]) })
+	add("p2j.Do(int64str,cut-in-int64-key)", func() ([]byte, error) { return f.p2jc64.Do(ctx, f.preqT, in["pb-cut-int64-key"]) })
 	httpReq := func(method, url string, body []byte, ctype string, hdr map[string]string) (*dhttp.HTTPRequest, error) {
 		var rd *bytes.Reader
 		if body != nil {
@@ -357,14 +393,14 @@ func newFixture() (*fixture, error) {
 		if err != nil {
 			return nil, err
 		}
-		return j2t.NewHTTPConv(meta.EncodingThriftBinary, f.fnM).Do(ctx, req, conv.Options{EnableHttpMapping: true, ReadHttpValueFallback: true})
+		return f.hcReq.Do(ctx, req, conv.Options{EnableHttpMapping: true, ReadHttpValueFallback: true})
 	})
 	add("j2t.HTTPConv.Do(traceback,missing-required)", func() ([]byte, error) {
 		req, err := httpReq("POST", "http://localhost/m", []byte(`{}`), "application/json", nil)
 		if err != nil {
 			return nil, err
 		}
-		return j2t.NewHTTPConv(meta.EncodingThriftBinary, f.fnM).Do(ctx, req, conv.Options{EnableHttpMapping: true, ReadHttpValueFallback: true, TracebackRequredOrRootFields: true})
+		return f.hcReq.Do(ctx, req, conv.Options{EnableHttpMapping: true, ReadHttpValueFallback: true, TracebackRequredOrRootFields: true})
 	})
 	add("thrift.MarshalTo(Small,missing-required)", func() ([]byte, error) {
 		return generic.NewValue(f.smallT, in["thrift-small-missing-required"]).MarshalTo(f.reqT, &generic.Options{})
@@ -394,7 +430,7 @@ func newFixture() (*fixture, error) {
 		if err != nil {
 			return nil, err
 		}
-		cv := j2t.NewHTTPConv(meta.EncodingThriftBinary, f.fnM)
+		cv := f.hcReq
 		return cv.Do(ctx, req, conv.Options{EnableHttpMapping: true})
 	})
 	add("j2t.HTTPConv.Do(no-body)", func() ([]byte, error) {
@@ -402,32 +438,32 @@ func newFixture() (*fixture, error) {
 		if err != nil {
 			return nil, err
 		}
-		return j2t.NewHTTPConv(meta.EncodingThriftBinary, f.fnM).Do(ctx, req, conv.Options{EnableHttpMapping: true})
+		return f.hcReq.Do(ctx, req, conv.Options{EnableHttpMapping: true})
 	})
 	add("j2t.HTTPConv.Do(fallback,write-default)", func() ([]byte, error) {
 		req, err := httpReq("POST", "http://localhost/m", in["json-nested"], "application/json", nil)
 		if err != nil {
 			return nil, err
 		}
-		return j2t.NewHTTPConv(meta.EncodingThriftBinary, f.fnM).Do(ctx, req, conv.Options{EnableHttpMapping: true, ReadHttpValueFallback: true, WriteDefaultField: true, WriteOptionalField: true})
+		return f.hcReq.Do(ctx, req, conv.Options{EnableHttpMapping: true, ReadHttpValueFallback: true, WriteDefaultField: true, WriteOptionalField: true})
 	})
 	add("j2t.HTTPConv.Do(traceback,ok)", func() ([]byte, error) {
 		req, err := httpReq("POST", "http://localhost/m", in["json-nested"], "application/json", nil)
 		if err != nil {
 			return nil, err
 		}
-		return j2t.NewHTTPConv(meta.EncodingThriftBinary, f.fnM).Do(ctx, req, conv.Options{EnableHttpMapping: true, ReadHttpValueFallback: true, TracebackRequredOrRootFields: true})
+		return f.hcReq.Do(ctx, req, conv.Options{EnableHttpMapping: true, ReadHttpValueFallback: true, TracebackRequredOrRootFields: true})
 	})
 	add("j2t.HTTPConv.Do(form)", func() ([]byte, error) {
 		req, err := httpReq("POST", "http://localhost/m", in["form-body"], "application/x-www-form-urlencoded", nil)
 		if err != nil {
 			return nil, err
 		}
-		return j2t.NewHTTPConv(meta.EncodingThriftBinary, f.fnM).Do(ctx, req, conv.Options{EnableHttpMapping: true, ReadHttpValueFallback: true})
+		return f.hcReq.Do(ctx, req, conv.Options{EnableHttpMapping: true, ReadHttpValueFallback: true})
 	})
 	add("t2j.HTTPConv.Do", func() ([]byte, error) {
 		rs := &respSetter{}
-		cv := t2j.NewHTTPConv(meta.EncodingThriftBinary, f.fnM)
+		cv := f.hcResp
 		err := cv.Do(ctx, rs, in["thrift-resp-msg"], conv.Options{EnableHttpMapping: true})
 		return rs.dump(), err
 	})
@@ -435,7 +471,7 @@ func newFixture() (*fixture, error) {
 		// the header value exactly as the response object holds it (no copy made by the harness): it must stay what it
 		// is while later conversions run
 		rs := &aliasSetter{}
-		cv := t2j.NewHTTPConv(meta.EncodingThriftBinary, f.fnM)
+		cv := f.hcResp
 		err := cv.Do(ctx, rs, in["thrift-resp-msg"], conv.Options{EnableHttpMapping: true, NoCopyString: true})
 		if err != nil || rs.header == "" {
 			return nil, err
@@ -444,6 +480,7 @@ func newFixture() (*fixture, error) {
 	})
 	add("j2p.Do(nested)", func() ([]byte, error) { return f.j2pc.Do(ctx, f.preqT, in["pbjson-nested"]) })
 	add("p2j.Do(nested)", func() ([]byte, error) { return f.p2jc.Do(ctx, f.preqT, in["pb-nested"]) })
+	add("p2j.Do(int64str,nested)", func() ([]byte, error) { return f.p2jc64.Do(ctx, f.preqT, in["pb-nested"]) })
 	add("thrift.GetByPath+Interface", func() ([]byte, error) {
 		v := generic.NewValue(f.reqT, in["thrift-nested"])
 		x := v.GetByPath(generic.NewPathFieldId(2), generic.NewPathIndex(1), generic.NewPathFieldName("b"))
